@@ -4,6 +4,14 @@ Require Import SkV.Lib.Base SkV.C15.Model SkV.C15.Lemmas SkV.C15.Proofs SkV.C15.
 Import ListNotations.
 Open Scope Z_scope.
 
+Lemma Forall2_map_l {A B} (f : A -> B) (P : B -> A -> Prop) l :
+  (forall a, In a l -> P (f a) a) -> Forall2 P (map f l) l.
+Proof.
+  induction l as [|a l IH]; intro H; cbn [map]; constructor.
+  - apply H. left. reflexivity.
+  - apply IH. intros a' Ha'. apply H. right. exact Ha'.
+Qed.
+
 Section Main.
   Context {V : Type}.
   Implicit Types (x : nested V) (X p : panel V) (m : mi V).
@@ -59,13 +67,41 @@ Section Main.
   Lemma main_roundtrip_nested_long n c T x cn :
     wf_nested n c T x ->
     long_to_nested cn (nested_to_long x) =
-    mkN KSeries (names_or_default cn c) (sort_vars (n_cols x) (n_rows x)) /\
+    mkN KSeries (names_or_sorted cn (n_cols x)) (sort_vars (n_cols x) (n_rows x)) /\
     wf_panel n c T (sort_vars (n_cols x) (n_rows x)).
   Proof.
     intros [Hwf [Hc Hnd]]. destruct x as [k cols rows]. cbn [n_kind n_cols n_rows] in *.
     unfold nested_to_long. rewrite (nested_to_mi_eq n c T rows Hwf). split.
     - apply (long_roundtrip n c T rows cols Hwf Hnd Hc).
     - apply (sort_vars_wf n c T rows cols Hwf Hnd Hc).
+  Qed.
+
+  (* nested -> long -> nested (no column_names): the frame that comes back is well-formed, has the
+     original identifiers (sorted), and instance by instance every identifier labels the very
+     series it labelled before *)
+  Lemma main_names_stay_with_data n c T x :
+    wf_nested n c T x ->
+    let y := long_to_nested None (nested_to_long x) in
+    wf_nested n c T y /\ n_kind y = KSeries /\
+    n_cols y = sort_names (n_cols x) /\ Permutation (n_cols y) (n_cols x) /\
+    Forall2 (fun ry rx => forall d, In d (n_cols x) ->
+                          pick d (n_cols y) ry = pick d (n_cols x) rx /\
+                          length (pick d (n_cols x) rx) = 1%nat)
+            (n_rows y) (n_rows x).
+  Proof.
+    intros Hx. pose proof Hx as [Hwf [Hc Hnd]].
+    destruct (main_roundtrip_nested_long n c T x None Hx) as [Heq Hwf']. cbn zeta.
+    rewrite Heq. cbn [n_kind n_cols n_rows names_or_sorted].
+    assert (Hnd' : NoDup (sort_names (n_cols x))) by (apply sorted_names_NoDup; exact Hnd).
+    split; [|split; [reflexivity|split; [reflexivity|split; [apply sort_names_perm; exact Hnd|]]]].
+    - split; [exact Hwf'|]. split; [apply sorted_names_length; assumption|exact Hnd'].
+    - unfold sort_vars. apply Forall2_map_l. intros rx Hrx d Hd.
+      destruct (wf_inst n c T _ Hwf rx Hrx) as [Hl _].
+      assert (Hlen : length (n_cols x) = length rx) by lia. split.
+      + apply pick_select; try assumption.
+        * intros d'. apply sort_names_In.
+        * apply sort_names_In. exact Hd.
+      + apply pick_length_1; assumption.
   Qed.
 
   Lemma main_long_orders_by_identifier :
